@@ -777,6 +777,39 @@ def lattice_laws(prog):
     return out
 
 
+def equality_laws(prog):
+    """The laws are equations, and the equality they are stated in is the `PartialEq` of the weight type.  For the
+    float-backed types it has to be value equality of the components (what `#[derive(PartialEq)]` gives): the arithmetic
+    produces −0.0 for (negative)·0 and 0.0 for x + (−x), and only value equality identifies them with `zero()`.  An
+    equality by total order or by bit pattern (`total_cmp`, `to_bits`) separates them, and with it `x * zero == zero`
+    and distributivity fail for negative x although every operation is unchanged."""
+    from . import canon
+    out = []
+    for adt in (SR + "realsemiring::RealSemiring", SR + "complex::Complex", SR + "expectation::ExpectedUtility"):
+        eqs = [f for f in prog.lib_fns if f.name == "eq" and f.impl_self == adt and (f.impl_trait or "").endswith("PartialEq")]
+        key = "%s:eq-is-value-equality" % adt
+        if len(eqs) != 1:
+            out.append(inst("LAW", key, UNDECIDED, None, None, "PartialEq::eq of %s not found" % adt.split("::")[-1]))
+            continue
+        f = eqs[0]
+        names = []
+        for g in canon.local_bodies(prog, f, ok=lambda h: True, depth=3):
+            names += [c.callee.name for c in g.terms.calls]
+        bitwise = [n_ for n_ in names if n_ in ("total_cmp", "to_bits", "to_ne_bytes", "to_le_bytes", "to_be_bytes")]
+        r = strip(f.terms.ret)
+        comps = [x for x in mir.subterms(r) if strip(x)[0] == "bin" and strip(x)[1] in ("Eq", "Ne")]
+        if bitwise:
+            out.append(inst("LAW", key, VIOLATION, f, None,
+                            "equality of %s goes through `%s`: it separates −0.0 from 0.0 (and is reflexive on NaN), but the "
+                            "arithmetic yields −0.0 for a negative value times zero — `x * zero == zero` and distributivity then "
+                            "fail for negative x, with every operation unchanged" % (adt.split("::")[-1], bitwise[0])))
+        elif comps and not [n_ for n_ in names if n_ not in ("eq", "ne")]:
+            out.append(inst("LAW", key, OK, f, None, "componentwise `==` (value equality)"))
+        else:
+            out.append(inst("LAW", key, UNDECIDED, f, None, "eq is %s" % show(r)[:60]))
+    return out
+
+
 def run(prog):
     out = []
     out += numeric_laws(prog, SR + "realsemiring::RealSemiring")
@@ -787,6 +820,7 @@ def run(prog):
     out += field_laws(prog)
     out += polynomial_laws(prog)
     out += lattice_laws(prog)
+    out += equality_laws(prog)
     if len([r for r in out if r["verdict"] in ("ok", "violation")]) < 40:
         raise CheckerError("LAW: only %d laws decided" % len(out))
     return out
